@@ -220,3 +220,44 @@ def quantise_candidates_on_grid(ctx):
             ("right_on_grid", hyp, Rr % s_ == 0, f"`{src_r}` is a multiple of the step"),
             ("bracket", hyp, z3.And(L <= t, t < Rr), "left <= original time < right"),
             ("one_step_apart", hyp, Rr - L == s_, "right - left == step")]
+
+
+@lemma("note_length_arithmetic", ["C06"])
+def note_length_arithmetic(ctx):
+    """Arithmetic core of `quantise_note_lengths`, on the real source expressions (read on every run): with d = off - on the current duration,
+    (a) an allowed value v is struck out exactly when the note would then end after the next note of its pitch starts (on + v > next_on),
+    (b) after `off += best_fit - d` the note lasts exactly best_fit, and its onset is not touched by that statement."""
+    import ast as _ast
+    from pyvc.engine import Exec, State, mk_heap
+    from pyvc.values import Num
+    fn, _ = ctx.sources.find("AbsoluteSequence.quantise_note_lengths")
+    sub = {"message_pairing[1].time": "off_t", "message_pairing[0].time": "on_t", "possible_next_pairing[0].time": "next_on"}
+
+    def norm(node):
+        txt = _ast.unparse(node)
+        for a, b in sub.items():
+            txt = txt.replace(a, b)
+        return txt
+    exprs, test, aug = {}, None, None
+    for n in _ast.walk(fn):
+        if isinstance(n, _ast.Assign) and len(n.targets) == 1 and isinstance(n.targets[0], _ast.Name) and n.targets[0].id in ("current_duration", "possible_correction", "correction"):
+            exprs.setdefault(n.targets[0].id, norm(n.value))
+        if isinstance(n, _ast.If) and test is None and "possible_correction" in _ast.unparse(n.test) and "possible_next_pairing" in _ast.unparse(n.test):
+            test = norm(n.test)
+        if isinstance(n, _ast.AugAssign) and "correction" in _ast.unparse(n.value) and aug is None:
+            aug = (norm(n.target), type(n.op).__name__, norm(n.value))
+    if set(exprs) != {"current_duration", "possible_correction", "correction"} or test is None or aug is None or aug[0] != "off_t" or aug[1] != "Add":
+        raise KeyError(f"quantise_note_lengths: expected statements not found ({sorted(exprs)}, {test}, {aug})")
+    on_t, off_t, next_on, v, best = z3.Ints("on_t off_t next_on note_value best_fit")
+    X = Exec(ctx, "lemma", None, silent=True)
+    st = State({}, mk_heap(ctx), [], {})
+    st.env = {"on_t": Num(on_t), "off_t": Num(off_t), "next_on": Num(next_on), "note_value": Num(v), "best_fit": Num(best)}
+    ev = lambda src: X.ev(_ast.parse(src, mode="eval").body, st)
+    st.env["current_duration"] = ev(exprs["current_duration"])
+    st.env["possible_correction"] = ev(exprs["possible_correction"])
+    struck = X.truth(ev(test), st)
+    st.env["correction"] = ev(exprs["correction"])
+    new_off = off_t + ev(aug[2]).v
+    hyp = list(st.pc)
+    return [("struck_out_iff_overlap", hyp, struck == (on_t + v > next_on), f"`{test}`  <=>  on + note_value > next_on"),
+            ("new_duration_is_best_fit", hyp, new_off - on_t == best, f"after `off {aug[1]}= {aug[2]}` with correction = `{exprs['correction']}`: off - on == best_fit")]
